@@ -61,8 +61,9 @@ class Sim:
     _count = 0
 
     def __init__(self, chooser=None, *, start_us=0, base_unix_us=1_000_000_000_000,
-                 cron=False, read_lat_us=1, loop_cls=VLoop, **loopkw):
+                 cron=False, read_lat_us=1, loop_cls=VLoop, tz_hours=0, **loopkw):
         self.chooser = chooser
+        self._tz_hours = tz_hours
         self._args = (start_us, base_unix_us, cron, read_lat_us, loop_cls, loopkw)
         self.loop = None
         self.storage = None
@@ -76,7 +77,8 @@ class Sim:
             self.loop = VLoop(self.chooser, start_us=start_us, **loopkw)
         else:
             self.loop = loop_cls(start_us)
-        vclock.install(self.loop, base_unix_us, cron=cron, read_lat_us=read_lat_us)
+        vclock.install(self.loop, base_unix_us, cron=cron, read_lat_us=read_lat_us,
+                       tz_hours=self._tz_hours)
         self.circuit = edzed.get_circuit()
         return self
 
